@@ -194,6 +194,12 @@ def version_satisfies(ctx, rep, prog, env):
     key = "Version::satisfies"
     rep.rule(rule, 1, "Version::satisfies answers what Range::satisfies answers")
     if not prog.has_body(key):
+        # the inherent method of Version with that name, wherever its impl block is written
+        found = [k for k, b in prog.bodies.items() if b.get("name") == "satisfies" and b.get("impl_self") == "Version"
+                 and b.get("arg_count") == 2]
+        if len(found) == 1:
+            key = found[0]
+    if not prog.has_body(key):
         cands = [k for k in prog.bodies if k.endswith("::satisfies")]
         rep.inconc("%s: Version::satisfies not found (functions named satisfies: %s)" % (rule, cands))
         return
